@@ -5,12 +5,17 @@ import sys, subprocess, os
 pid, rel, old, new = sys.argv[1:5]
 tier = sys.argv[6] if len(sys.argv) > 6 else 'quick'
 extra = sys.argv[7:]
-p = os.path.join('/repo', rel)
+WT = os.environ.get('VP_SEED_WT', '/tmp/wt_mut')
+if not os.path.isdir(WT):
+    subprocess.run(['git', '-C', '/repo', 'worktree', 'add', '-q', '--detach', WT, 'HEAD'], check=True)
+subprocess.run(['git', '-C', WT, 'checkout', '-q', '--detach', subprocess.run(['git', '-C', '/repo', 'rev-parse', 'HEAD'], capture_output=True, text=True).stdout.strip()], check=True)
+subprocess.run(['git', '-c', 'submodule.recurse=false', '-C', WT, 'checkout', '--', 'gmlc', 'tests'], check=True)
+p = os.path.join(WT, rel)
 s = open(p).read()
 assert old in s, "pattern not found"
 open(p, 'w').write(s.replace(old, new, 1))
 try:
-    r = subprocess.run(['python3', '/verif/vcheck.py', pid, '--tier', tier] + extra, stdout=subprocess.PIPE, stderr=subprocess.STDOUT, text=True, env=dict(os.environ, VP_DEV='1'))
+    r = subprocess.run(['python3', '/verif/vcheck.py', pid, '--tier', tier] + extra, stdout=subprocess.PIPE, stderr=subprocess.STDOUT, text=True, env=dict(os.environ, VP_DEV='1', VERIF_REPO=WT))
     print(r.stdout[-3000:]); print("exit", r.returncode)
 finally:
-    subprocess.run(['git', '-C', '/repo', 'checkout', '--', '.'])
+    subprocess.run(['git', '-c', 'submodule.recurse=false', '-C', WT, 'checkout', '--', 'gmlc', 'tests'])
